@@ -45,3 +45,8 @@ package absnfs
 
 //@ also NFSProcedureHandler.handleSetattr
 //@ callassert NFSNode.Truncate : [size-first] {C01} mutlog == old(mutlog) && arg1 == sattr.Size
+
+// a WRITE is one backend write: the write-mode open, the WriteAt and the timestamp update are the only modifying
+// requests (no truncation or second write that a concurrent WRITE's acknowledged data could be lost to)
+//@ also AbsfsNFS.WriteWithContext
+//@ ensures [one-backend-write] {C01} mutlog <= old(mutlog) + 3
